@@ -97,6 +97,24 @@ func ruleConsumerBounds(r *Run, p *Prog, rule string, fns []*ssa.Function) {
 		if l, _, ok := intervalOf(idx, 0); ok && l >= 0 {
 			lower = true
 		}
+		// `for i := 0; …; i++`: a counter that starts at a non-negative constant and only grows
+		if ph, ok := idx.(*ssa.Phi); ok {
+			grows := len(ph.Edges) > 0
+			for _, e := range ph.Edges {
+				if k, isC := constInt(e); isC && k >= 0 {
+					continue
+				}
+				if bo, isB := e.(*ssa.BinOp); isB && bo.Op == token.ADD && bo.X == ssa.Value(ph) {
+					if k, isC := constInt(bo.Y); isC && k > 0 {
+						continue
+					}
+				}
+				grows = false
+			}
+			if grows {
+				lower = true
+			}
+		}
 		if l, _, ok := typeRange(idx.Type()); ok && l >= 0 {
 			lower = true
 		}
